@@ -26,10 +26,11 @@ void carquet_bitpack8_32(const uint32_t *values, int bit_width, uint8_t *output)
   if (bit_width != 0) __CPROVER_havoc_slice(output, (size_t)bit_width);
 }
 
-#ifdef RLE_STUB_RECORD
-uint8_t rle_rec[RLE_STUB_RECORD];
+/* ghost state shared with the contracts (declared in specs/rle_spec.h) */
+int64_t G_put, G_emitted, G_pad;
+#define RLE_REC_CAP 64
+uint8_t rle_rec[RLE_REC_CAP];
 size_t rle_rec_len;
-#endif
 /* number of appends that reported failure (C11: failures must not be lost) */
 unsigned rle_append_failures;
 
@@ -38,9 +39,10 @@ carquet_status_t carquet_buffer_append(carquet_buffer_t *buf, const void *data, 
   __CPROVER_precondition(size == 0 || __CPROVER_r_ok(data, size), "buffer_append: data readable for size bytes");
   if (size == 0) return CARQUET_OK;
 #ifdef RLE_STUB_RECORD
-  for (size_t i = 0; i < 8; i++)
-    if (i < size && rle_rec_len + i < RLE_STUB_RECORD) rle_rec[rle_rec_len + i] = ((const uint8_t *)data)[i];
+  /* exact model for the byte-level lemmas: appends never fail, bytes are kept (at most 8 per call) */
   __CPROVER_precondition(size <= 8, "record stub: appends of at most 8 bytes");
+  for (size_t i = 0; i < 8; i++)
+    if (i < size && rle_rec_len + i < RLE_REC_CAP) rle_rec[rle_rec_len + i] = ((const uint8_t *)data)[i];
   rle_rec_len += size;
   return CARQUET_OK;
 #else
